@@ -31,7 +31,7 @@ SCOPE = ('universal part: every initial state of the bounded parameter family, o
          'a positive answer comes with an action/draw sequence that is replayed on the real step function and must end on the rewarded exit; a negative '
          'answer is a violation (the relation was produced by the real step function, so it is already confirmed)')
 BOUNDS = {
-    'quick': dict(empty='4x4..5x5, both flags', crossing='5x5 (1-2 rivers), 7x7 (1-3 rivers), rivers of Wall', rooms='5x5 layouts 1x2, 2x1, 2x2; 5x7 layout 1x2',
+    'quick': dict(limit_layouts='rooms 5x5 (1,3), (3,1), 4x6 (1,3), 4x7 (1,3): refused with ValueError or winnable', empty='4x4..5x5, both flags', crossing='5x5 (1-2 rivers), 7x7 (1-3 rivers), rivers of Wall', rooms='5x5 layouts 1x2, 2x1, 2x2; 5x7 layout 1x2',
                   keydoor='4x5, 4x6, 5x5, 7x5', teleport='4x5, 5x5', memory='5x5, 6x5, 5x7 with 2-3 colours', memory_rooms='4x5 1x2, 5x4 2x1 (1 beacon, 2 exits)',
                   dynamic_obstacles='4x4 (<=2 obstacles), 5x5 (1 obstacle); the existential quantifier also ranges over the obstacle draws',
                   search='explicit graphs of at most 20000 states; agent keeps the key once picked (sound for an existence claim)'),
